@@ -1,67 +1,67 @@
 import STProofs.Blocks
 import STProofs.CubicAdjoint
 /-!
-# `propagateGrad` of the quintic spline is the exact adjoint of the construction map — every N
+# `propagateGrad` of the septic spline is the exact adjoint of the construction map — every N
 (under the hypothesis that no pivot determinant of the block elimination vanishes)
 
 Same architecture as the cubic: the construction map on dual numbers; per-segment pull-back identity (first loop);
 the differentiated block system; the code's transposed sweeps are the adjoint of the solve (`bsolveT_adjoint`);
 per-block identity (second loop); boundary corrections.
 -/
-open ST ST.Quintic
+open ST ST.Septic
 
-namespace QuinticAdj
+namespace SepticAdj
 variable {K : Type} [Field K]
 
 /-! ## real / dual parts of blocks -/
-def M2re (a : M2 (Dual K)) : M2 K := ⟨a.a00.re, a.a01.re, a.a10.re, a.a11.re⟩
-def M2du (a : M2 (Dual K)) : M2 K := ⟨a.a00.du, a.a01.du, a.a10.du, a.a11.du⟩
-def V2re (v : V2 (Dual K)) : V2 K := ⟨v.x.re, v.y.re⟩
-def V2du (v : V2 (Dual K)) : V2 K := ⟨v.x.du, v.y.du⟩
+def M3re (a : M3 (Dual K)) : M3 K := ⟨a.a00.re, a.a01.re, a.a02.re, a.a10.re, a.a11.re, a.a12.re, a.a20.re, a.a21.re, a.a22.re⟩
+def M3du (a : M3 (Dual K)) : M3 K := ⟨a.a00.du, a.a01.du, a.a02.du, a.a10.du, a.a11.du, a.a12.du, a.a20.du, a.a21.du, a.a22.du⟩
+def V3re (v : V3 (Dual K)) : V3 K := ⟨v.x.re, v.y.re, v.z.re⟩
+def V3du (v : V3 (Dual K)) : V3 K := ⟨v.x.du, v.y.du, v.z.du⟩
 
-theorem smul_re (a : M2 (Dual K)) (v : V2 (Dual K)) : V2re (a • v) = M2re a • V2re v := by
-  ext <;> simp [V2re, M2re, V2.smul_def]
-theorem smul_du (a : M2 (Dual K)) (v : V2 (Dual K)) : V2du (a • v) = M2re a • V2du v + M2du a • V2re v := by
-  ext <;> simp [V2du, V2re, M2re, M2du, V2.smul_def, V2.add_def] <;> ring
-theorem add_re (v w : V2 (Dual K)) : V2re (v + w) = V2re v + V2re w := by ext <;> simp [V2re, V2.add_def]
-theorem add_du (v w : V2 (Dual K)) : V2du (v + w) = V2du v + V2du w := by ext <;> simp [V2du, V2.add_def]
-theorem sub_re (v w : V2 (Dual K)) : V2re (v - w) = V2re v - V2re w := by ext <;> simp [V2re, V2.sub_def]
-theorem sub_du (v w : V2 (Dual K)) : V2du (v - w) = V2du v - V2du w := by ext <;> simp [V2du, V2.sub_def]
-theorem zero_re : V2re (0 : V2 (Dual K)) = 0 := by ext <;> simp [V2re, V2.zero_def]
-theorem zero_du : V2du (0 : V2 (Dual K)) = 0 := by ext <;> simp [V2du, V2.zero_def]
-theorem mul_re (a b : M2 (Dual K)) : M2re (a * b) = M2re a * M2re b := by ext <;> simp [M2re, M2.mul_def]
-theorem msub_re (a b : M2 (Dual K)) : M2re (a - b) = M2re a - M2re b := by ext <;> simp [M2re, M2.sub_def]
-theorem inv_re (a : M2 (Dual K)) : M2re (M2.inv a) = M2.inv (M2re a) := by
-  ext <;> simp only [M2re, M2.inv] <;> dual_proj <;> simp only [lit_eq]
-theorem det_re (a : M2 (Dual K)) : (M2.det a).re = M2.det (M2re a) := by simp [M2.det, M2re]
+theorem smul_re (a : M3 (Dual K)) (v : V3 (Dual K)) : V3re (a • v) = M3re a • V3re v := by
+  ext <;> simp [V3re, M3re, V3.smul_def]
+theorem smul_du (a : M3 (Dual K)) (v : V3 (Dual K)) : V3du (a • v) = M3re a • V3du v + M3du a • V3re v := by
+  ext <;> simp [V3du, V3re, M3re, M3du, V3.smul_def, V3.add_def] <;> ring
+theorem add_re (v w : V3 (Dual K)) : V3re (v + w) = V3re v + V3re w := by ext <;> simp [V3re, V3.add_def]
+theorem add_du (v w : V3 (Dual K)) : V3du (v + w) = V3du v + V3du w := by ext <;> simp [V3du, V3.add_def]
+theorem sub_re (v w : V3 (Dual K)) : V3re (v - w) = V3re v - V3re w := by ext <;> simp [V3re, V3.sub_def]
+theorem sub_du (v w : V3 (Dual K)) : V3du (v - w) = V3du v - V3du w := by ext <;> simp [V3du, V3.sub_def]
+theorem zero_re : V3re (0 : V3 (Dual K)) = 0 := by ext <;> simp [V3re, V3.zero_def]
+theorem zero_du : V3du (0 : V3 (Dual K)) = 0 := by ext <;> simp [V3du, V3.zero_def]
+theorem mul_re (a b : M3 (Dual K)) : M3re (a * b) = M3re a * M3re b := by ext <;> simp [M3re, M3.mul_def]
+theorem msub_re (a b : M3 (Dual K)) : M3re (a - b) = M3re a - M3re b := by ext <;> simp [M3re, M3.sub_def]
+theorem inv_re (a : M3 (Dual K)) : M3re (M3.inv a) = M3.inv (M3re a) := by
+  ext <;> simp only [M3re, M3.inv] <;> dual_proj <;> simp only [lit_eq]
+theorem det_re (a : M3 (Dual K)) : (M3.det a).re = M3.det (M3re a) := by simp [M3.det, M3re]
 
 /-- the dot product of 2-vectors and the transpose form a pairing -/
-def ip2 (a b : V2 K) : K := a.x * b.x + a.y * b.y
-theorem ip2_pairing : IsPairing (R := M2 K) (V := V2 K) M2.transpose ip2 where
-  add_left a b c := by simp [ip2, V2.add_def]; ring
-  add_right a b c := by simp [ip2, V2.add_def]; ring
-  adj m v w := by simp [ip2, V2.smul_def, M2.transpose]; ring
+def ip3 (a b : V3 K) : K := a.x * b.x + a.y * b.y + a.z * b.z
+theorem ip3_pairing : IsPairing (R := M3 K) (V := V3 K) M3.transpose ip3 where
+  add_left a b c := by simp [ip3, V3.add_def]; ring
+  add_right a b c := by simp [ip3, V3.add_def]; ring
+  adj m v w := by simp [ip3, V3.smul_def, M3.transpose]; ring
 
 /-! ## the differentiated block system -/
 
-def rowRe (r : BRow (M2 (Dual K)) (V2 (Dual K))) : BRow (M2 K) (V2 K) := ⟨M2re r.l, M2re r.d, M2re r.u, V2re r.b⟩
+def rowRe (r : BRow (M3 (Dual K)) (V3 (Dual K))) : BRow (M3 K) (V3 K) := ⟨M3re r.l, M3re r.d, M3re r.u, V3re r.b⟩
 
 /-- right-hand side of the differentiated system `A·dX = b' − A'·X` -/
-def rhoB : V2 K → List (BRow (M2 (Dual K)) (V2 (Dual K))) → List (V2 K) → List (V2 K)
-  | xp, r :: rs, x :: xs => (V2du r.b - (M2du r.l • xp + M2du r.d • x + M2du r.u • xs.headD 0)) :: rhoB x rs xs
+def rhoB : V3 K → List (BRow (M3 (Dual K)) (V3 (Dual K))) → List (V3 K) → List (V3 K)
+  | xp, r :: rs, x :: xs => (V3du r.b - (M3du r.l • xp + M3du r.d • x + M3du r.u • xs.headD 0)) :: rhoB x rs xs
   | _, _, _ => []
 
-def withB : List (BRow (M2 K) (V2 K)) → List (V2 K) → List (BRow (M2 K) (V2 K))
+def withB : List (BRow (M3 K) (V3 K)) → List (V3 K) → List (BRow (M3 K) (V3 K))
   | r :: rs, b :: bs => ⟨r.l, r.d, r.u, b⟩ :: withB rs bs
   | _, _ => []
 
-theorem headD_map_V2re (l : List (V2 (Dual K))) : (l.map V2re).headD 0 = V2re (l.headD 0) := by
+theorem headD_map_V3re (l : List (V3 (Dual K))) : (l.map V3re).headD 0 = V3re (l.headD 0) := by
   cases l <;> simp [zero_re]
-theorem headD_map_V2du (l : List (V2 (Dual K))) : (l.map V2du).headD 0 = V2du (l.headD 0) := by
+theorem headD_map_V3du (l : List (V3 (Dual K))) : (l.map V3du).headD 0 = V3du (l.headD 0) := by
   cases l <;> simp [zero_du]
 
-theorem bsolves_re (xp : V2 (Dual K)) (rows : List (BRow (M2 (Dual K)) (V2 (Dual K)))) (xs : List (V2 (Dual K)))
-    (h : BSolves xp rows xs) : BSolves (V2re xp) (rows.map rowRe) (xs.map V2re) := by
+theorem bsolves_re (xp : V3 (Dual K)) (rows : List (BRow (M3 (Dual K)) (V3 (Dual K)))) (xs : List (V3 (Dual K)))
+    (h : BSolves xp rows xs) : BSolves (V3re xp) (rows.map rowRe) (xs.map V3re) := by
   induction rows generalizing xp xs with
   | nil => cases xs <;> simp_all [BSolves]
   | cons r rs ih =>
@@ -70,14 +70,14 @@ theorem bsolves_re (xp : V2 (Dual K)) (rows : List (BRow (M2 (Dual K)) (V2 (Dual
     | cons x xs =>
       obtain ⟨hrow, hrest⟩ := h
       refine ⟨?_, ih x xs hrest⟩
-      have := congrArg V2re hrow
+      have := congrArg V3re hrow
       simp only [add_re, smul_re] at this
-      simp only [rowRe, headD_map_V2re]
+      simp only [rowRe, headD_map_V3re]
       exact this
 
-theorem bsolves_du (xp : V2 (Dual K)) (rows : List (BRow (M2 (Dual K)) (V2 (Dual K)))) (xs : List (V2 (Dual K)))
+theorem bsolves_du (xp : V3 (Dual K)) (rows : List (BRow (M3 (Dual K)) (V3 (Dual K)))) (xs : List (V3 (Dual K)))
     (h : BSolves xp rows xs) :
-    BSolves (V2du xp) (withB (rows.map rowRe) (rhoB (V2re xp) rows (xs.map V2re))) (xs.map V2du) := by
+    BSolves (V3du xp) (withB (rows.map rowRe) (rhoB (V3re xp) rows (xs.map V3re))) (xs.map V3du) := by
   induction rows generalizing xp xs with
   | nil => cases xs <;> simp_all [BSolves, withB, rhoB]
   | cons r rs ih =>
@@ -87,94 +87,95 @@ theorem bsolves_du (xp : V2 (Dual K)) (rows : List (BRow (M2 (Dual K)) (V2 (Dual
       obtain ⟨hrow, hrest⟩ := h
       simp only [List.map_cons, rhoB, withB, BSolves]
       refine ⟨?_, ih x xs hrest⟩
-      have := congrArg V2du hrow
+      have := congrArg V3du hrow
       simp only [add_du, smul_du] at this
-      simp only [rowRe, headD_map_V2re, headD_map_V2du]
+      simp only [rowRe, headD_map_V3re, headD_map_V3du]
       rw [← this]; abel
 
-end QuinticAdj
+end SepticAdj
 
-namespace QuinticAdj
+namespace SepticAdj
 variable {K : Type} [Field K] [CharZero K]
 
 /-- upstream gradient of one piece paired with the dual parts of its coefficients -/
-def gdot6 (g : C6 K) (c : C6 (Dual K)) : K :=
+def gdot8 (g : C8 K) (c : C8 (Dual K)) : K :=
   g.c0 * c.c0.du + g.c1 * c.c1.du + g.c2 * c.c2.du + g.c3 * c.c3.du + g.c4 * c.c4.du + g.c5 * c.c5.du
+    + g.c6 * c.c6.du + g.c7 * c.c7.du
 
 /-- **first loop, one segment**: the pull-back of one piece through the Hermite closure -/
-theorem seg1_identity (h p0 p1 : Dual K) (k0 k1 : V2 (Dual K)) (g : C6 K) (hh : h.re ≠ 0) :
+theorem seg1_identity (h p0 p1 : Dual K) (k0 k1 : V3 (Dual K)) (g : C8 K) (hh : h.re ≠ 0) :
     let s : Seg (Dual K) := ⟨mkTP h, p0, p1 - p0⟩
     let sr : Seg K := ⟨mkTP h.re, p0.re, p1.re - p0.re⟩
-    let out := seg1 sr g (V2re k0) (V2re k1)
-    gdot6 g (closeSeg s k0 k1)
-      = out.1.1 * p0.du + out.1.2 * p1.du + out.2.2 * h.du + ip2 out.2.1.1 (V2du k0) + ip2 out.2.1.2 (V2du k1) := by
+    let out := seg1 sr g (V3re k0) (V3re k1)
+    gdot8 g (closeSeg s k0 k1)
+      = out.1.1 * p0.du + out.1.2 * p1.du + out.2.2 * h.du + ip3 out.2.1.1 (V3du k0) + ip3 out.2.1.2 (V3du k1) := by
   intro s sr out
-  simp only [s, sr, out, gdot6, closeSeg, seg1, mkTP, ip2, V2re, V2du, litq]
+  simp only [s, sr, out, gdot8, closeSeg, seg1, mkTP, ip3, V3re, V3du, litq]
   dual_proj
   simp only [lit_eq]
   push_cast
   field_simp
   ring
 
-end QuinticAdj
+end SepticAdj
 
-namespace QuinticAdj
+namespace SepticAdj
 variable {K : Type} [Field K] [CharZero K]
 
 /-- **second loop, one block**: the adjoint variable of a knot paired with the derivative of that knot's block row -/
-theorem block2_identity (hL hR pp pc pn : Dual K) (kp kc kn : V2 (Dual K)) (lam : V2 K) (h1 : hL.re ≠ 0) (h2 : hR.re ≠ 0) :
+theorem block2_identity (hL hR pp pc pn : Dual K) (kp kc kn : V3 (Dual K)) (lam : V3 K) (h1 : hL.re ≠ 0) (h2 : hR.re ≠ 0) :
     let sL : Seg (Dual K) := ⟨mkTP hL, pp, pc - pp⟩
     let sR : Seg (Dual K) := ⟨mkTP hR, pc, pn - pc⟩
     let sLr : Seg K := ⟨mkTP hL.re, pp.re, pc.re - pp.re⟩
     let sRr : Seg K := ⟨mkTP hR.re, pc.re, pn.re - pc.re⟩
-    let out := block2 sLr sRr (V2re kp) (V2re kc) (V2re kn) lam
-    ip2 lam (V2du (blockRhs sL sR)
-        - (M2du (blockL sL.tp) • V2re kp + M2du (blockD sL.tp sR.tp) • V2re kc + M2du (blockU sR.tp) • V2re kn))
+    let out := block2 sLr sRr (V3re kp) (V3re kc) (V3re kn) lam
+    ip3 lam (V3du (blockRhs sL sR)
+        - (M3du (blockL sL.tp) • V3re kp + M3du (blockD sL.tp sR.tp) • V3re kc + M3du (blockU sR.tp) • V3re kn))
       = out.1.1 * pp.du + out.1.2.1 * pc.du + out.1.2.2 * pn.du + out.2.1 * hL.du + out.2.2 * hR.du := by
   intro sL sR sLr sRr out
-  simp only [sL, sR, sLr, sRr, out, block2, blockRhs, blockL, blockD, blockU, mkTP, ip2, V2re, V2du, M2du,
-    V2.smul_def, V2.add_def, V2.sub_def]
+  simp only [sL, sR, sLr, sRr, out, block2, blockRhs, blockL, blockD, blockU, mkTP, ip3, V3re, V3du, M3du,
+    V3.smul_def, V3.add_def, V3.sub_def]
   dual_proj
   simp only [lit_eq]
   push_cast
   field_simp
   ring
 
-end QuinticAdj
+end SepticAdj
 
-namespace QuinticAdj
+namespace SepticAdj
 variable {K : Type} [Field K] [CharZero K]
 
 /-! ## list-level bookkeeping -/
 
-def gdotC6 : List (C6 K) → List (C6 (Dual K)) → K
-  | g :: gs, c :: cs => gdot6 g c + gdotC6 gs cs
+def gdotC8 : List (C8 K) → List (C8 (Dual K)) → K
+  | g :: gs, c :: cs => gdot8 g c + gdotC8 gs cs
   | _, _ => 0
 
 /-- pairing of per-segment (left-knot, right-knot) vector contributions with a knot list -/
-def segPairV : List (V2 K × V2 K) → List (V2 K) → K
-  | (l, r) :: rest, x :: y :: ys => ip2 l x + ip2 r y + segPairV rest (y :: ys)
+def segPairV : List (V3 K × V3 K) → List (V3 K) → K
+  | (l, r) :: rest, x :: y :: ys => ip3 l x + ip3 r y + segPairV rest (y :: ys)
   | _, _ => 0
 
-theorem ipSum_oaddV2Aux (c : V2 K) (lr : List (V2 K × V2 K)) (xs : List (V2 K)) (hlen : xs.length = lr.length + 1) :
-    ipSum ip2 (oaddV2Aux c lr) xs = ip2 c (xs.headD 0) + segPairV lr xs := by
+theorem ipSum_oaddV3Aux (c : V3 K) (lr : List (V3 K × V3 K)) (xs : List (V3 K)) (hlen : xs.length = lr.length + 1) :
+    ipSum ip3 (oaddV3Aux c lr) xs = ip3 c (xs.headD 0) + segPairV lr xs := by
   induction lr generalizing c xs with
   | nil =>
     match xs, hlen with
-    | [x], _ => simp [oaddV2Aux, segPairV, ipSum]
+    | [x], _ => simp [oaddV3Aux, segPairV, ipSum]
   | cons p rest ih =>
     obtain ⟨l, r⟩ := p
     match xs, hlen with
     | x :: y :: ys, hlen =>
       have := ih r (y :: ys) (by simpa using hlen)
-      simp only [oaddV2Aux, ipSum, this, segPairV, List.headD_cons]
-      have : ip2 (V2.add c l) x = ip2 c x + ip2 l x := ip2_pairing.add_left c l x
+      simp only [oaddV3Aux, ipSum, this, segPairV, List.headD_cons]
+      have : ip3 (V3.add c l) x = ip3 c x + ip3 l x := ip3_pairing.add_left c l x
       rw [this]; ring
 
-theorem ipSum_oaddV2 (lr : List (V2 K × V2 K)) (xs : List (V2 K)) (hlen : xs.length = lr.length + 1) :
-    ipSum ip2 (oaddV2 lr) xs = segPairV lr xs := by
-  rw [oaddV2, ipSum_oaddV2Aux _ _ _ hlen]
-  have : ip2 (V2.zero : V2 K) (xs.headD 0) = 0 := by simp [ip2, V2.zero]
+theorem ipSum_oaddV3 (lr : List (V3 K × V3 K)) (xs : List (V3 K)) (hlen : xs.length = lr.length + 1) :
+    ipSum ip3 (oaddV3 lr) xs = segPairV lr xs := by
+  rw [oaddV3, ipSum_oaddV3Aux _ _ _ hlen]
+  have : ip3 (V3.zero : V3 K) (xs.headD 0) = 0 := by simp [ip3, V3.zero]
   rw [this, zero_add]
 
 /-- pairing of per-block (prev, curr, next) contributions with a list -/
@@ -202,10 +203,10 @@ theorem dot_oadd3 (l : List (K × K × K)) (xs : List K) (hlen : xs.length = l.l
 
 /-- real parts of the dual segments -/
 def segRe (s : Seg (Dual K)) : Seg K :=
-  ⟨⟨s.tp.h.re, s.tp.i1.re, s.tp.i2.re, s.tp.i3.re, s.tp.i4.re, s.tp.i5.re, s.tp.i6.re⟩, s.p0.re, s.dp.re⟩
+  ⟨⟨s.tp.h.re, s.tp.i1.re, s.tp.i2.re, s.tp.i3.re, s.tp.i4.re, s.tp.i5.re, s.tp.i6.re, s.tp.i7.re⟩, s.p0.re, s.dp.re⟩
 
 theorem mkTP_re (h : Dual K) : (⟨(mkTP h).h.re, (mkTP h).i1.re, (mkTP h).i2.re, (mkTP h).i3.re, (mkTP h).i4.re,
-    (mkTP h).i5.re, (mkTP h).i6.re⟩ : TP K) = mkTP h.re := by
+    (mkTP h).i5.re, (mkTP h).i6.re, (mkTP h).i7.re⟩ : TP K) = mkTP h.re := by
   simp only [mkTP]; dual_proj; simp only [lit_eq]
 
 theorem mkSegs_re (hs Ps : List (Dual K)) :
@@ -221,17 +222,17 @@ theorem mkSegs_re (hs Ps : List (Dual K)) :
       congr 1
 
 /-- **first loop summed over the spline** -/
-theorem loop1_sum (hs Ps : List (Dual K)) (ks : List (V2 (Dual K))) (gs : List (C6 K))
+theorem loop1_sum (hs Ps : List (Dual K)) (ks : List (V3 (Dual K))) (gs : List (C8 K))
     (hP : Ps.length = hs.length + 1) (hk : ks.length = hs.length + 1) (hg : gs.length = hs.length)
     (hne : ∀ h ∈ hs, h.re ≠ 0) :
-    let l1 := loop1 (mkSegs (hs.map Dual.re) (Ps.map Dual.re)) gs (ks.map V2re)
-    gdotC6 gs (closure (mkSegs hs Ps) ks)
+    let l1 := loop1 (mkSegs (hs.map Dual.re) (Ps.map Dual.re)) gs (ks.map V3re)
+    gdotC8 gs (closure (mkSegs hs Ps) ks)
       = segPair (l1.map (·.1)) (Ps.map Dual.du) + dot (l1.map (·.2.2)) (hs.map Dual.du)
-        + segPairV (l1.map (·.2.1)) (ks.map V2du) := by
+        + segPairV (l1.map (·.2.1)) (ks.map V3du) := by
   induction hs generalizing Ps ks gs with
   | nil =>
     match gs, hg with
-    | [], _ => simp [mkSegs, closure, gdotC6, loop1, segPair, segPairV]
+    | [], _ => simp [mkSegs, closure, gdotC8, loop1, segPair, segPairV]
   | cons h hs ih =>
     match Ps, ks, gs, hP, hk, hg with
     | p0 :: p1 :: Ps, k0 :: k1 :: ks, g :: gs, hP, hk, hg =>
@@ -239,44 +240,44 @@ theorem loop1_sum (hs Ps : List (Dual K)) (ks : List (V2 (Dual K))) (gs : List (
       have ih' := ih (p1 :: Ps) (k1 :: ks) gs (by simpa using hP) (by simpa using hk) (by simpa using hg)
         (fun x hx => hne x (by simp [hx]))
       have sid := seg1_identity h p0 p1 k0 k1 g hh
-      simp only [List.map_cons, mkSegs, closure, gdotC6, loop1, segPair, segPairV, dot_cons] at ih' sid ⊢
+      simp only [List.map_cons, mkSegs, closure, gdotC8, loop1, segPair, segPairV, dot_cons] at ih' sid ⊢
       rw [ih', sid]
       ring
 
-end QuinticAdj
+end SepticAdj
 
-namespace QuinticAdj
+namespace SepticAdj
 variable {K : Type} [Field K] [CharZero K]
 
 /-- derivative of the (uniform) block row of an interior knot: `rhs' − (L'·k_prev + D'·k_curr + U'·k_next)` -/
-def rhoInt (sL sR : Seg (Dual K)) (kp kc kn : V2 (Dual K)) : V2 K :=
-  V2du (blockRhs sL sR)
-    - (M2du (blockL sL.tp) • V2re kp + M2du (blockD sL.tp sR.tp) • V2re kc + M2du (blockU sR.tp) • V2re kn)
+def rhoInt (sL sR : Seg (Dual K)) (kp kc kn : V3 (Dual K)) : V3 K :=
+  V3du (blockRhs sL sR)
+    - (M3du (blockL sL.tp) • V3re kp + M3du (blockD sL.tp sR.tp) • V3re kc + M3du (blockU sR.tp) • V3re kn)
 
-def blockSum : List (Seg (Dual K)) → List (V2 (Dual K)) → List (V2 K) → K
+def blockSum : List (Seg (Dual K)) → List (V3 (Dual K)) → List (V3 K) → K
   | sL :: sR :: ss, kp :: kc :: kn :: ks, lam :: lams =>
-      ip2 lam (rhoInt sL sR kp kc kn) + blockSum (sR :: ss) (kc :: kn :: ks) lams
+      ip3 lam (rhoInt sL sR kp kc kn) + blockSum (sR :: ss) (kc :: kn :: ks) lams
   | _, _, _ => 0
 
 /-- the end-boundary correction: the last adjoint variable paired with `U_last · d(b_R)` -/
-def endCorr (bR : V2 (Dual K)) : Seg (Dual K) → List (Seg (Dual K)) → List (V2 K) → K
-  | _, [sR], [lam] => ip2 lam (M2re (blockU sR.tp) • V2du bR)
+def endCorr (bR : V3 (Dual K)) : Seg (Dual K) → List (Seg (Dual K)) → List (V3 K) → K
+  | _, [sR], [lam] => ip3 lam (M3re (blockU sR.tp) • V3du bR)
   | _, sR :: s2 :: ss, _ :: lams => endCorr bR sR (s2 :: ss) lams
   | _, _, _ => 0
 
 /-- the differentiated right-hand sides of the code's rows (which carry the boundary corrections) paired with the
 adjoint variables = the uniform block sum minus the two boundary corrections -/
-theorem rho_sum (bL bR : V2 (Dual K)) (first : Bool) (xp : V2 (Dual K)) (sL : Seg (Dual K)) (rest : List (Seg (Dual K)))
-    (xs : List (V2 (Dual K))) (lams : List (V2 K)) (hxp : first = true → xp = 0)
+theorem rho_sum (bL bR : V3 (Dual K)) (first : Bool) (xp : V3 (Dual K)) (sL : Seg (Dual K)) (rest : List (Seg (Dual K)))
+    (xs : List (V3 (Dual K))) (lams : List (V3 K)) (hxp : first = true → xp = 0)
     (hx : xs.length = rest.length) (hl : lams.length = rest.length) :
-    ipSum ip2 lams (rhoB (V2re xp) (rowsAux bR first bL sL rest) (xs.map V2re))
+    ipSum ip3 lams (rhoB (V3re xp) (rowsAux bR first bL sL rest) (xs.map V3re))
       = blockSum (sL :: rest) ((if first then bL else xp) :: xs ++ [bR]) lams
-        - (if first then ip2 (lams.headD 0) (M2re (blockL sL.tp) • V2du bL) else 0)
+        - (if first then ip3 (lams.headD 0) (M3re (blockL sL.tp) • V3du bL) else 0)
         - endCorr bR sL rest lams := by
   induction rest generalizing first xp sL xs lams with
   | nil =>
     match xs, lams, hx, hl with
-    | [], [], _, _ => cases first <;> simp [rowsAux, rhoB, ipSum, blockSum, endCorr, ip2, V2.zero_def]
+    | [], [], _, _ => cases first <;> simp [rowsAux, rhoB, ipSum, blockSum, endCorr, ip3, V3.zero_def]
   | cons sR rest ih =>
     match xs, lams, hx, hl with
     | x :: xs, lam :: lams, hx, hl =>
@@ -293,20 +294,20 @@ theorem rho_sum (bL bR : V2 (Dual K)) (first : Bool) (xp : V2 (Dual K)) (sL : Se
           | true =>
             simp only [if_true]
             rw [hxp rfl]
-            have e1 : V2.sub (V2.sub (blockRhs sL sR) (M2.act (blockL sL.tp) bL)) (M2.act (blockU sR.tp) bR)
+            have e1 : V3.sub (V3.sub (blockRhs sL sR) (M3.act (blockL sL.tp) bL)) (M3.act (blockU sR.tp) bR)
                 = blockRhs sL sR - blockL sL.tp • bL - blockU sR.tp • bR := rfl
             rw [e1]
             simp only [sub_du, smul_du, zero_re, smul_zero]
-            simp only [ip2_pairing.sub_right, ip2_pairing.add_right]
-            have z : ip2 lam (0 : V2 K) = 0 := ip2_pairing.zero_right lam
+            simp only [ip3_pairing.sub_right, ip3_pairing.add_right]
+            have z : ip3 lam (0 : V3 K) = 0 := ip3_pairing.zero_right lam
             rw [z]; ring
           | false =>
             simp only [Bool.false_eq_true, if_false, sub_zero]
-            have e1 : V2.sub (blockRhs sL sR) (M2.act (blockU sR.tp) bR) = blockRhs sL sR - blockU sR.tp • bR := rfl
+            have e1 : V3.sub (blockRhs sL sR) (M3.act (blockU sR.tp) bR) = blockRhs sL sR - blockU sR.tp • bR := rfl
             rw [e1]
             simp only [sub_du, smul_du, zero_re, smul_zero]
-            simp only [ip2_pairing.sub_right, ip2_pairing.add_right]
-            have z : ip2 lam (0 : V2 K) = 0 := ip2_pairing.zero_right lam
+            simp only [ip3_pairing.sub_right, ip3_pairing.add_right]
+            have z : ip3 lam (0 : V3 K) = 0 := ip3_pairing.zero_right lam
             rw [z]; ring
       | cons s2 rest2 =>
         match xs, lams, hx, hl with
@@ -316,22 +317,22 @@ theorem rho_sum (bL bR : V2 (Dual K)) (first : Bool) (xp : V2 (Dual K)) (sL : Se
           | true =>
             simp only [if_true]
             rw [hxp rfl]
-            have e1 : V2.sub (blockRhs sL sR) (M2.act (blockL sL.tp) bL) = blockRhs sL sR - blockL sL.tp • bL := rfl
+            have e1 : V3.sub (blockRhs sL sR) (M3.act (blockL sL.tp) bL) = blockRhs sL sR - blockL sL.tp • bL := rfl
             rw [e1]
             simp only [sub_du, smul_du, zero_re, smul_zero]
-            simp only [ip2_pairing.sub_right, ip2_pairing.add_right]
-            have z : ip2 lam (0 : V2 K) = 0 := ip2_pairing.zero_right lam
+            simp only [ip3_pairing.sub_right, ip3_pairing.add_right]
+            have z : ip3 lam (0 : V3 K) = 0 := ip3_pairing.zero_right lam
             rw [z]; ring
           | false =>
             simp only [Bool.false_eq_true, if_false, sub_zero]
-            simp only [ip2_pairing.sub_right, ip2_pairing.add_right]
+            simp only [ip3_pairing.sub_right, ip3_pairing.add_right]
             ring
 
 /-- **second loop summed over the blocks** -/
-theorem loop2_sum (hs Ps : List (Dual K)) (ks : List (V2 (Dual K))) (lams : List (V2 K))
+theorem loop2_sum (hs Ps : List (Dual K)) (ks : List (V3 (Dual K))) (lams : List (V3 K))
     (hP : Ps.length = hs.length + 1) (hk : ks.length = hs.length + 1) (hl : lams.length + 1 = hs.length)
     (hne : ∀ h ∈ hs, h.re ≠ 0) :
-    let l2 := loop2 (mkSegs (hs.map Dual.re) (Ps.map Dual.re)) (ks.map V2re) lams
+    let l2 := loop2 (mkSegs (hs.map Dual.re) (Ps.map Dual.re)) (ks.map V3re) lams
     blockSum (mkSegs hs Ps) ks lams
       = segPair3 (l2.map (·.1)) (Ps.map Dual.du) + segPair (l2.map (·.2)) (hs.map Dual.du) := by
   induction hs generalizing Ps ks lams with
@@ -368,35 +369,35 @@ theorem loop2_sum (hs Ps : List (Dual K)) (ks : List (V2 (Dual K))) (lams : List
               simp only [List.map_cons, mkSegs, blockSum, loop2, segPair3, segPair, rhoInt] at bid ih' ⊢
               rw [bid, ih']; ring
 
-end QuinticAdj
+end SepticAdj
 
-namespace QuinticAdj
+namespace SepticAdj
 variable {K : Type} [Field K] [CharZero K]
 
 /-! ## pivots: the determinant condition on the real system gives everything needed -/
 
 /-- no pivot determinant of the (real) block elimination vanishes — a decidable condition on the durations -/
-def DetOK : Option (BFact (M2 K) (V2 K)) → List (BRow (M2 K) (V2 K)) → Prop
+def DetOK : Option (BFact (M3 K) (V3 K)) → List (BRow (M3 K) (V3 K)) → Prop
   | _, [] => True
-  | none, r :: rs => M2.det r.d ≠ 0 ∧ DetOK (some ⟨M2.inv r.d, r.u, r.l, r.b⟩) rs
+  | none, r :: rs => M3.det r.d ≠ 0 ∧ DetOK (some ⟨M3.inv r.d, r.u, r.l, r.b⟩) rs
   | some p, r :: rs =>
-      M2.det (r.d - r.l * (p.dinv * p.u)) ≠ 0 ∧
-        DetOK (some ⟨M2.inv (r.d - r.l * (p.dinv * p.u)), r.u, r.l, r.b - r.l • (p.dinv • p.b)⟩) rs
+      M3.det (r.d - r.l * (p.dinv * p.u)) ≠ 0 ∧
+        DetOK (some ⟨M3.inv (r.d - r.l * (p.dinv * p.u)), r.u, r.l, r.b - r.l • (p.dinv • p.b)⟩) rs
 
-theorem detOK_pivOK2 (st : Option (BFact (M2 K) (V2 K))) (rows : List (BRow (M2 K) (V2 K))) (h : DetOK st rows) :
-    BPivOK2 M2.inv st rows := by
+theorem detOK_pivOK2 (st : Option (BFact (M3 K) (V3 K))) (rows : List (BRow (M3 K) (V3 K))) (h : DetOK st rows) :
+    BPivOK2 M3.inv st rows := by
   induction rows generalizing st with
   | nil => cases st <;> trivial
   | cons r rs ih =>
     cases st with
-    | none => exact ⟨⟨M2.mul_inv _ h.1, M2.inv_mul _ h.1⟩, ih _ h.2⟩
-    | some p => exact ⟨⟨M2.mul_inv _ h.1, M2.inv_mul _ h.1⟩, ih _ h.2⟩
+    | none => exact ⟨⟨M3.mul_inv _ h.1, M3.inv_mul _ h.1⟩, ih _ h.2⟩
+    | some p => exact ⟨⟨M3.mul_inv _ h.1, M3.inv_mul _ h.1⟩, ih _ h.2⟩
 
 /-- the condition does not depend on the right-hand sides -/
-def sameMat (rows rows' : List (BRow (M2 K) (V2 K))) : Prop :=
+def sameMat (rows rows' : List (BRow (M3 K) (V3 K))) : Prop :=
   List.Forall₂ (fun a b => a.l = b.l ∧ a.d = b.d ∧ a.u = b.u) rows rows'
 
-theorem detOK_congr (st st' : Option (BFact (M2 K) (V2 K))) (rows rows' : List (BRow (M2 K) (V2 K)))
+theorem detOK_congr (st st' : Option (BFact (M3 K) (V3 K))) (rows rows' : List (BRow (M3 K) (V3 K)))
     (hst : match st, st' with
       | none, none => True
       | some p, some p' => p.dinv = p'.dinv ∧ p.u = p'.u
@@ -415,7 +416,7 @@ theorem detOK_congr (st st' : Option (BFact (M2 K) (V2 K))) (rows rows' : List (
       refine ⟨by rw [← e1, ← e2, ← hp1, ← hp2]; exact h.1, ih _ _ ?_ h.2⟩
       exact ⟨by rw [e1, e2, hp1, hp2], e3⟩
 
-theorem sameMat_withB (rows : List (BRow (M2 K) (V2 K))) (b : List (V2 K)) (hb : b.length = rows.length) :
+theorem sameMat_withB (rows : List (BRow (M3 K) (V3 K))) (b : List (V3 K)) (hb : b.length = rows.length) :
     sameMat rows (withB rows b) := by
   induction rows generalizing b with
   | nil => cases b <;> exact List.Forall₂.nil
@@ -423,7 +424,7 @@ theorem sameMat_withB (rows : List (BRow (M2 K) (V2 K))) (b : List (V2 K)) (hb :
     match b, hb with
     | b0 :: bs, hb => exact List.Forall₂.cons ⟨rfl, rfl, rfl⟩ (ih bs (by simpa using hb))
 
-theorem withB_b (rows : List (BRow (M2 K) (V2 K))) (b : List (V2 K)) (hb : b.length = rows.length) :
+theorem withB_b (rows : List (BRow (M3 K) (V3 K))) (b : List (V3 K)) (hb : b.length = rows.length) :
     (withB rows b).map (·.b) = b := by
   induction rows generalizing b with
   | nil => cases b <;> simp_all [withB]
@@ -432,13 +433,13 @@ theorem withB_b (rows : List (BRow (M2 K) (V2 K))) (b : List (V2 K)) (hb : b.len
     | b0 :: bs, hb => simp [withB, ih bs (by simpa using hb)]
 
 /-- facts of systems with the same matrix agree in `D⁻¹`, `U`, `L` -/
-theorem bfwd_sameLU (st st' : Option (BFact (M2 K) (V2 K))) (rows rows' : List (BRow (M2 K) (V2 K)))
+theorem bfwd_sameLU (st st' : Option (BFact (M3 K) (V3 K))) (rows rows' : List (BRow (M3 K) (V3 K)))
     (hst : match st, st' with
       | none, none => True
       | some p, some p' => p.dinv = p'.dinv ∧ p.u = p'.u
       | _, _ => False)
     (hm : sameMat rows rows') :
-    sameLU (@bfwd _ _ (ringBlk M2.inv M2.transpose) st rows) (@bfwd _ _ (ringBlk M2.inv M2.transpose) st' rows') := by
+    sameLU (@bfwd _ _ (ringBlk M3.inv M3.transpose) st rows) (@bfwd _ _ (ringBlk M3.inv M3.transpose) st' rows') := by
   induction hm generalizing st st' with
   | nil => cases st <;> cases st' <;> exact List.Forall₂.nil
   | cons hab _ ih =>
@@ -451,13 +452,13 @@ theorem bfwd_sameLU (st st' : Option (BFact (M2 K) (V2 K))) (rows rows' : List (
       simp only [bfwd, BlkOps.inv, BlkOps.sub, BlkOps.mul]
       exact List.Forall₂.cons ⟨by rw [e1, e2, hp1, hp2], e3, e1⟩ (ih _ _ ⟨by rw [e1, e2, hp1, hp2], e3⟩)
 
-theorem bfwdT_congr (fs fs' : List (BFact (M2 K) (V2 K))) (h : sameLU fs fs') (g : List (V2 K))
-    (st st' : Option (BFact (M2 K) (V2 K) × V2 K))
+theorem bfwdT_congr (fs fs' : List (BFact (M3 K) (V3 K))) (h : sameLU fs fs') (g : List (V3 K))
+    (st st' : Option (BFact (M3 K) (V3 K) × V3 K))
     (hst : match st, st' with
       | none, none => True
       | some (p, l), some (p', l') => p.u = p'.u ∧ l = l'
       | _, _ => False) :
-    @bfwdT _ _ (ringBlk M2.inv M2.transpose) st fs g = @bfwdT _ _ (ringBlk M2.inv M2.transpose) st' fs' g := by
+    @bfwdT _ _ (ringBlk M3.inv M3.transpose) st fs g = @bfwdT _ _ (ringBlk M3.inv M3.transpose) st' fs' g := by
   induction h generalizing st st' g with
   | nil => cases st <;> cases st' <;> cases g <;> simp [bfwdT]
   | cons hab _ ih =>
@@ -475,8 +476,8 @@ theorem bfwdT_congr (fs fs' : List (BFact (M2 K) (V2 K))) (h : sameLU fs fs') (g
         congr 1
         exact ih gs _ _ ⟨e2, rfl⟩
 
-theorem bbackT_congr (fs fs' : List (BFact (M2 K) (V2 K))) (h : sameLU fs fs') (y : List (V2 K)) :
-    @bbackT _ _ (ringBlk M2.inv M2.transpose) fs y = @bbackT _ _ (ringBlk M2.inv M2.transpose) fs' y := by
+theorem bbackT_congr (fs fs' : List (BFact (M3 K) (V3 K))) (h : sameLU fs fs') (y : List (V3 K)) :
+    @bbackT _ _ (ringBlk M3.inv M3.transpose) fs y = @bbackT _ _ (ringBlk M3.inv M3.transpose) fs' y := by
   induction h generalizing y with
   | nil => cases y <;> simp [bbackT]
   | cons hab htl ih =>
@@ -495,36 +496,36 @@ theorem bbackT_congr (fs fs' : List (BFact (M2 K) (V2 K))) (h : sameLU fs fs') (
         have := ih ys
         simp only [bbackT, this, BlkOps.act, BlkOps.tr, BlkOps.vsub, BlkOps.mul, e1, f3]
 
-theorem bsolveT_congr (fs fs' : List (BFact (M2 K) (V2 K))) (h : sameLU fs fs') (g : List (V2 K)) :
-    @bsolveT _ _ (ringBlk M2.inv M2.transpose) fs g = @bsolveT _ _ (ringBlk M2.inv M2.transpose) fs' g := by
+theorem bsolveT_congr (fs fs' : List (BFact (M3 K) (V3 K))) (h : sameLU fs fs') (g : List (V3 K)) :
+    @bsolveT _ _ (ringBlk M3.inv M3.transpose) fs g = @bsolveT _ _ (ringBlk M3.inv M3.transpose) fs' g := by
   simp only [bsolveT]
   rw [bfwdT_congr fs fs' h g none none trivial, bbackT_congr fs fs' h]
 
-end QuinticAdj
+end SepticAdj
 
-namespace QuinticAdj
+namespace SepticAdj
 variable {K : Type} [Field K] [CharZero K]
 
-def tpRe (t : TP (Dual K)) : TP K := ⟨t.h.re, t.i1.re, t.i2.re, t.i3.re, t.i4.re, t.i5.re, t.i6.re⟩
+def tpRe (t : TP (Dual K)) : TP K := ⟨t.h.re, t.i1.re, t.i2.re, t.i3.re, t.i4.re, t.i5.re, t.i6.re, t.i7.re⟩
 
-theorem blockL_re (t : TP (Dual K)) : M2re (blockL t) = blockL (tpRe t) := by
-  simp only [blockL, M2re, tpRe]; dual_proj; simp only [lit_eq]
-theorem blockU_re (t : TP (Dual K)) : M2re (blockU t) = blockU (tpRe t) := by
-  simp only [blockU, M2re, tpRe]; dual_proj; simp only [lit_eq]
-theorem blockD_re (a b : TP (Dual K)) : M2re (blockD a b) = blockD (tpRe a) (tpRe b) := by
-  simp only [blockD, M2re, tpRe]; dual_proj; simp only [lit_eq]
-theorem blockRhs_re (a b : Seg (Dual K)) : V2re (blockRhs a b) = blockRhs (segRe a) (segRe b) := by
-  simp only [blockRhs, V2re, segRe]; dual_proj; simp only [lit_eq]
+theorem blockL_re (t : TP (Dual K)) : M3re (blockL t) = blockL (tpRe t) := by
+  simp only [blockL, M3re, tpRe]; dual_proj; simp only [lit_eq]
+theorem blockU_re (t : TP (Dual K)) : M3re (blockU t) = blockU (tpRe t) := by
+  simp only [blockU, M3re, tpRe]; dual_proj; simp only [lit_eq]
+theorem blockD_re (a b : TP (Dual K)) : M3re (blockD a b) = blockD (tpRe a) (tpRe b) := by
+  simp only [blockD, M3re, tpRe]; dual_proj; simp only [lit_eq]
+theorem blockRhs_re (a b : Seg (Dual K)) : V3re (blockRhs a b) = blockRhs (segRe a) (segRe b) := by
+  simp only [blockRhs, V3re, segRe]; dual_proj; simp only [lit_eq]
 
-theorem rowsAux_re (bL bR : V2 (Dual K)) (first : Bool) (sL : Seg (Dual K)) (rest : List (Seg (Dual K))) :
-    (rowsAux bR first bL sL rest).map rowRe = rowsAux (V2re bR) first (V2re bL) (segRe sL) (rest.map segRe) := by
+theorem rowsAux_re (bL bR : V3 (Dual K)) (first : Bool) (sL : Seg (Dual K)) (rest : List (Seg (Dual K))) :
+    (rowsAux bR first bL sL rest).map rowRe = rowsAux (V3re bR) first (V3re bL) (segRe sL) (rest.map segRe) := by
   induction rest generalizing first sL with
   | nil => simp [rowsAux]
   | cons sR rest ih =>
     simp only [rowsAux, List.map_cons, ih false sR]
     congr 1
-    have hsub : ∀ a b : V2 (Dual K), V2re (V2.sub a b) = V2.sub (V2re a) (V2re b) := fun a b => sub_re a b
-    have hact : ∀ (m : M2 (Dual K)) (v : V2 (Dual K)), V2re (M2.act m v) = M2.act (M2re m) (V2re v) := fun m v => smul_re m v
+    have hsub : ∀ a b : V3 (Dual K), V3re (V3.sub a b) = V3.sub (V3re a) (V3re b) := fun a b => sub_re a b
+    have hact : ∀ (m : M3 (Dual K)) (v : V3 (Dual K)), V3re (M3.act m v) = M3.act (M3re m) (V3re v) := fun m v => smul_re m v
     cases rest with
     | nil =>
       cases first <;>
@@ -535,41 +536,41 @@ theorem rowsAux_re (bL bR : V2 (Dual K)) (first : Bool) (sL : Seg (Dual K)) (res
         simp only [rowRe, blockL_re, blockU_re, blockD_re, blockRhs_re, hsub, hact, segRe, tpRe, List.map_cons, if_true,
           Bool.false_eq_true, if_false]
 
-theorem rows_re (bL bR : V2 (Dual K)) (segs : List (Seg (Dual K))) :
-    (rows bL bR segs).map rowRe = rows (V2re bL) (V2re bR) (segs.map segRe) := by
+theorem rows_re (bL bR : V3 (Dual K)) (segs : List (Seg (Dual K))) :
+    (rows bL bR segs).map rowRe = rows (V3re bL) (V3re bR) (segs.map segRe) := by
   cases segs with
   | nil => rfl
   | cons s rest => simp only [rows, List.map_cons]; exact rowsAux_re bL bR true s rest
 
-def factRe (f : BFact (M2 (Dual K)) (V2 (Dual K))) : BFact (M2 K) (V2 K) := ⟨M2re f.dinv, M2re f.u, M2re f.l, V2re f.b⟩
+def factRe (f : BFact (M3 (Dual K)) (V3 (Dual K))) : BFact (M3 K) (V3 K) := ⟨M3re f.dinv, M3re f.u, M3re f.l, V3re f.b⟩
 
 /-- the dual pivots are invertible as soon as the real pivot determinants do not vanish -/
-theorem pivOK_dual (st : Option (BFact (M2 (Dual K)) (V2 (Dual K)))) (rowsD : List (BRow (M2 (Dual K)) (V2 (Dual K))))
-    (h : DetOK (st.map factRe) (rowsD.map rowRe)) : BPivOK M2.inv st rowsD := by
+theorem pivOK_dual (st : Option (BFact (M3 (Dual K)) (V3 (Dual K)))) (rowsD : List (BRow (M3 (Dual K)) (V3 (Dual K))))
+    (h : DetOK (st.map factRe) (rowsD.map rowRe)) : BPivOK M3.inv st rowsD := by
   induction rowsD generalizing st with
   | nil => cases st <;> trivial
   | cons r rs ih =>
     cases st with
     | none =>
       simp only [Option.map_none, List.map_cons, DetOK] at h
-      refine ⟨M2.mul_inv _ ?_, ih _ ?_⟩
-      · show (M2.det r.d).re ≠ 0
+      refine ⟨M3.mul_inv _ ?_, ih _ ?_⟩
+      · show (M3.det r.d).re ≠ 0
         rw [det_re]; exact h.1
       · simpa [factRe, rowRe, inv_re] using h.2
     | some p =>
       simp only [Option.map_some, List.map_cons, DetOK, factRe, rowRe] at h
-      refine ⟨M2.mul_inv _ ?_, ih _ ?_⟩
-      · show (M2.det (r.d - r.l * (p.dinv * p.u))).re ≠ 0
+      refine ⟨M3.mul_inv _ ?_, ih _ ?_⟩
+      · show (M3.det (r.d - r.l * (p.dinv * p.u))).re ≠ 0
         rw [det_re, msub_re, mul_re, mul_re]; exact h.1
       · simpa [factRe, rowRe, inv_re, msub_re, mul_re, sub_re, smul_re] using h.2
 
-end QuinticAdj
+end SepticAdj
 
-namespace QuinticAdj
+namespace SepticAdj
 variable {K : Type} [Field K] [CharZero K]
 
 theorem endU_re (s0 : Seg (Dual K)) (rest : List (Seg (Dual K))) :
-    M2re (endU s0 rest) = endU (segRe s0) (rest.map segRe) := by
+    M3re (endU s0 rest) = endU (segRe s0) (rest.map segRe) := by
   induction rest generalizing s0 with
   | nil => simp only [endU, List.map_nil, blockU_re]; rfl
   | cons s1 r ih =>
@@ -577,9 +578,9 @@ theorem endU_re (s0 : Seg (Dual K)) (rest : List (Seg (Dual K))) :
     | nil => simp only [endU, List.map_cons, List.map_nil, blockU_re]; rfl
     | cons s2 r2 => simp only [endU, List.map_cons]; exact ih s1
 
-theorem endCorr_eq (bR : V2 (Dual K)) (s0 : Seg (Dual K)) (rest : List (Seg (Dual K))) (lams : List (V2 K))
+theorem endCorr_eq (bR : V3 (Dual K)) (s0 : Seg (Dual K)) (rest : List (Seg (Dual K))) (lams : List (V3 K))
     (hl : lams.length = rest.length) (hr : rest ≠ []) :
-    endCorr bR s0 rest lams = ip2 (lams.getLastD 0) (M2re (endU s0 rest) • V2du bR) := by
+    endCorr bR s0 rest lams = ip3 (lams.getLastD 0) (M3re (endU s0 rest) • V3du bR) := by
   induction rest generalizing s0 lams with
   | nil => exact absurd rfl hr
   | cons s1 r ih =>
@@ -598,10 +599,10 @@ theorem endCorr_eq (bR : V2 (Dual K)) (s0 : Seg (Dual K)) (rest : List (Seg (Dua
           simp [List.getLastD_cons]
 
 /-- split a pairing along `first :: middle ++ [last]` -/
-theorem ipSum_split (a0 aN : V2 K) (as : List (V2 K)) (b0 bN : V2 K) (bs : List (V2 K)) (h : as.length = bs.length) :
-    ipSum ip2 (a0 :: as ++ [aN]) (b0 :: bs ++ [bN]) = ip2 a0 b0 + ipSum ip2 as bs + ip2 aN bN := by
+theorem ipSum_split (a0 aN : V3 K) (as : List (V3 K)) (b0 bN : V3 K) (bs : List (V3 K)) (h : as.length = bs.length) :
+    ipSum ip3 (a0 :: as ++ [aN]) (b0 :: bs ++ [bN]) = ip3 a0 b0 + ipSum ip3 as bs + ip3 aN bN := by
   simp only [List.cons_append, ipSum]
-  have : ∀ (as bs : List (V2 K)), as.length = bs.length → ipSum ip2 (as ++ [aN]) (bs ++ [bN]) = ipSum ip2 as bs + ip2 aN bN := by
+  have : ∀ (as bs : List (V3 K)), as.length = bs.length → ipSum ip3 (as ++ [aN]) (bs ++ [bN]) = ipSum ip3 as bs + ip3 aN bN := by
     intro as
     induction as with
     | nil => intro bs hb; cases bs with
@@ -614,7 +615,7 @@ theorem ipSum_split (a0 aN : V2 K) (as : List (V2 K)) (b0 bN : V2 K) (bs : List 
       | cons b bs => simp only [List.cons_append, ipSum, ih bs (by simpa using hb)]; ring
   rw [this as bs h]; ring
 
-theorem rows_length (bL bR : V2 K) (segs : List (Seg K)) : (rows bL bR segs).length = segs.length - 1 := by
+theorem rows_length (bL bR : V3 K) (segs : List (Seg K)) : (rows bL bR segs).length = segs.length - 1 := by
   have : ∀ (first : Bool) (s : Seg K) (rest : List (Seg K)), (rowsAux bR first bL s rest).length = rest.length := by
     intro first s rest
     induction rest generalizing first s with
@@ -624,7 +625,7 @@ theorem rows_length (bL bR : V2 K) (segs : List (Seg K)) : (rows bL bR segs).len
   | nil => rfl
   | cons s rest => simp [rows, this]
 
-theorem rowsD_length (bL bR : V2 (Dual K)) (segs : List (Seg (Dual K))) : (rows bL bR segs).length = segs.length - 1 := by
+theorem rowsD_length (bL bR : V3 (Dual K)) (segs : List (Seg (Dual K))) : (rows bL bR segs).length = segs.length - 1 := by
   have := congrArg List.length (rows_re bL bR segs)
   simp only [List.length_map] at this
   rw [this, rows_length]; simp
@@ -636,25 +637,25 @@ theorem mkSegs_length (hs Ps : List (Dual K)) (hP : Ps.length = hs.length + 1) :
     match Ps, hP with
     | p0 :: p1 :: Ps, hP => simp [mkSegs, ih (p1 :: Ps) (by simpa using hP)]
 
-end QuinticAdj
+end SepticAdj
 
-namespace QuinticAdj
+namespace SepticAdj
 variable {K : Type} [Field K] [CharZero K]
 
-theorem propagate_ends_single (b : Built K) (gs : List (C6 K)) (s0 : Seg K) (h : b.segs = [s0]) :
-    (propagate b gs).start = (oaddV2 ((loop1 b.segs gs b.knots).map (·.2.1))).headD V2.zero
-    ∧ (propagate b gs).fin = (oaddV2 ((loop1 b.segs gs b.knots).map (·.2.1))).getLastD V2.zero := by
+theorem propagate_ends_single (b : Built K) (gs : List (C8 K)) (s0 : Seg K) (h : b.segs = [s0]) :
+    (propagate b gs).start = (oaddV3 ((loop1 b.segs gs b.knots).map (·.2.1))).headD V3.zero
+    ∧ (propagate b gs).fin = (oaddV3 ((loop1 b.segs gs b.knots).map (·.2.1))).getLastD V3.zero := by
   simp only [propagate]
   split
   · next s0' s1 rest heq => rw [h] at heq; simp at heq
   · exact ⟨rfl, rfl⟩
 
-theorem propagate_ends_multi (b : Built K) (gs : List (C6 K)) (s0 s1 : Seg K) (rest : List (Seg K))
+theorem propagate_ends_multi (b : Built K) (gs : List (C8 K)) (s0 s1 : Seg K) (rest : List (Seg K))
     (h : b.segs = s0 :: s1 :: rest) :
-    let gd := oaddV2 ((loop1 b.segs gs b.knots).map (·.2.1))
+    let gd := oaddV3 ((loop1 b.segs gs b.knots).map (·.2.1))
     let lam := bsolveT b.facts (gd.tail.dropLast)
-    (propagate b gs).start = V2.sub (gd.headD V2.zero) (M2.actT (blockL s0.tp) (lam.headD V2.zero))
-    ∧ (propagate b gs).fin = V2.sub (gd.getLastD V2.zero) (M2.actT (endU s0 (s1 :: rest)) (lam.getLastD V2.zero)) := by
+    (propagate b gs).start = V3.sub (gd.headD V3.zero) (M3.actT (blockL s0.tp) (lam.headD V3.zero))
+    ∧ (propagate b gs).fin = V3.sub (gd.getLastD V3.zero) (M3.actT (endU s0 (s1 :: rest)) (lam.getLastD V3.zero)) := by
   simp only [propagate]
   split
   · next s0' s1' rest' heq =>
@@ -663,49 +664,49 @@ theorem propagate_ends_multi (b : Built K) (gs : List (C6 K)) (s0 s1 : Seg K) (r
     exact ⟨rfl, rfl⟩
   · next hno => exact absurd h (hno s0 s1 rest)
 
-/-- **C05 (quintic): `propagateGrad` is the exact transpose-Jacobian product of the construction map, for every N ≥ 1**,
+/-- **C05 (septic): `propagateGrad` is the exact transpose-Jacobian product of the construction map, for every N ≥ 1**,
 every duration vector with non-zero entries whose block pivots are non-singular (`DetOK`), every waypoint / boundary
 data, every upstream gradient and every tangent. -/
-theorem quintic_adjoint (hs Ps : List (Dual K)) (bL bR : V2 (Dual K)) (gs : List (C6 K)) (gT : List K)
+theorem septic_adjoint (hs Ps : List (Dual K)) (bL bR : V3 (Dual K)) (gs : List (C8 K)) (gT : List K)
     (hne0 : hs ≠ []) (hne : ∀ h ∈ hs, h.re ≠ 0)
     (hP : Ps.length = hs.length + 1) (hg : gs.length = hs.length) (hgT : gT.length = hs.length)
-    (hdet : DetOK none (rows (V2re bL) (V2re bR) (mkSegs (hs.map Dual.re) (Ps.map Dual.re)))) :
-    let b := buildFull (hs.map Dual.re) (Ps.map Dual.re) (V2re bL) (V2re bR)
+    (hdet : DetOK none (rows (V3re bL) (V3re bR) (mkSegs (hs.map Dual.re) (Ps.map Dual.re)))) :
+    let b := buildFull (hs.map Dual.re) (Ps.map Dual.re) (V3re bL) (V3re bR)
     let out := propagate b gs
-    gdotC6 gs (build hs Ps bL bR) + dot gT (hs.map Dual.du)
+    gdotC8 gs (build hs Ps bL bR) + dot gT (hs.map Dual.du)
       = dot out.points (Ps.map Dual.du) + dot (zipAdd gT out.times) (hs.map Dual.du)
-        + ip2 out.start (V2du bL) + ip2 out.fin (V2du bR) := by
+        + ip3 out.start (V3du bL) + ip3 out.fin (V3du bR) := by
   intro b out
   -- names
   set segsD := mkSegs hs Ps with hsegsD
   set rowsD := rows bL bR segsD with hrowsD
   set segsR := mkSegs (hs.map Dual.re) (Ps.map Dual.re) with hsegsR
-  set rowsR := rows (V2re bL) (V2re bR) segsR with hrowsR
+  set rowsR := rows (V3re bL) (V3re bR) segsR with hrowsR
   have hsegs : segsD.map segRe = segsR := mkSegs_re hs Ps
   have hrowsRe : rowsD.map rowRe = rowsR := by rw [hrowsD, rows_re, hsegs]
   have hlenSegs : segsD.length = hs.length := mkSegs_length hs Ps hP
   have hlenRows : rowsD.length = hs.length - 1 := by rw [hrowsD, rowsD_length, hlenSegs]
   have hlenRowsR : rowsR.length = hs.length - 1 := by rw [← hrowsRe, List.length_map, hlenRows]
   -- dual solve
-  have hpivD : BPivOK M2.inv none rowsD := pivOK_dual none rowsD (by simpa [hrowsRe] using hdet)
+  have hpivD : BPivOK M3.inv none rowsD := pivOK_dual none rowsD (by simpa [hrowsRe] using hdet)
   have hsolD : BSolves 0 rowsD (bthomas rowsD) := by
-    have := bthomas_correct M2.inv M2.transpose rowsD hpivD
-    rwa [← blkOps_M2] at this
+    have := bthomas_correct M3.inv M3.transpose rowsD hpivD
+    rwa [← blkOps_M3] at this
   set inner := bthomas rowsD with hinner
   have hlenInner : inner.length = hs.length - 1 := by rw [bsolves_length _ _ _ hsolD, hlenRows]
   -- real part of the dual solution = the real solution
-  have hpivR : BPivOK2 M2.inv none rowsR := detOK_pivOK2 none rowsR hdet
-  have hreal : inner.map V2re = bthomas rowsR := by
+  have hpivR : BPivOK2 M3.inv none rowsR := detOK_pivOK2 none rowsR hdet
+  have hreal : inner.map V3re = bthomas rowsR := by
     have h1 := bsolves_re 0 rowsD inner hsolD
     rw [zero_re, hrowsRe] at h1
-    have u := bthomas_unique M2.inv M2.transpose rowsR hpivR _ h1
-    rwa [← blkOps_M2] at u
+    have u := bthomas_unique M3.inv M3.transpose rowsR hpivR _ h1
+    rwa [← blkOps_M3] at u
   -- knots
   have hknotsD : (buildFull hs Ps bL bR).knots = bL :: inner ++ [bR] := rfl
-  have hknotsR : b.knots = V2re bL :: inner.map V2re ++ [V2re bR] := by
-    show V2re bL :: bback (bfwd none rowsR) ++ [V2re bR] = _
+  have hknotsR : b.knots = V3re bL :: inner.map V3re ++ [V3re bR] := by
+    show V3re bL :: bback (bfwd none rowsR) ++ [V3re bR] = _
     rw [hreal]; rfl
-  have hknotsMap : ((buildFull hs Ps bL bR).knots).map V2re = b.knots := by
+  have hknotsMap : ((buildFull hs Ps bL bR).knots).map V3re = b.knots := by
     rw [hknotsD, hknotsR]; simp
   have hlenKnots : (buildFull hs Ps bL bR).knots.length = hs.length + 1 := by
     rw [hknotsD]; simp only [List.length_cons, List.length_append, List.length_nil, hlenInner]
@@ -720,7 +721,7 @@ theorem quintic_adjoint (hs Ps : List (Dual K)) (bL bR : V2 (Dual K)) (gs : List
   rw [hbuild, hL1]
   set l1 := loop1 segsR gs b.knots with hl1
   have hl1len : l1.length = hs.length := by
-    have : ∀ (segs : List (Seg K)) (gs : List (C6 K)) (ks : List (V2 K)), gs.length = segs.length → ks.length = segs.length + 1 →
+    have : ∀ (segs : List (Seg K)) (gs : List (C8 K)) (ks : List (V3 K)), gs.length = segs.length → ks.length = segs.length + 1 →
         (loop1 segs gs ks).length = segs.length := by
       intro segs
       induction segs with
@@ -732,9 +733,9 @@ theorem quintic_adjoint (hs Ps : List (Dual K)) (bL bR : V2 (Dual K)) (gs : List
     have hsR : segsR.length = hs.length := by rw [← hsegs, List.length_map, hlenSegs]
     rw [hl1, this segsR gs b.knots (by rw [hg, hsR]) (by rw [← hknotsMap, List.length_map, hlenKnots, hsR]), hsR]
   -- knot-derivative gradients
-  set gd := oaddV2 (l1.map (·.2.1)) with hgd
-  have hgdPair : segPairV (l1.map (·.2.1)) ((buildFull hs Ps bL bR).knots.map V2du) = ipSum ip2 gd ((buildFull hs Ps bL bR).knots.map V2du) := by
-    rw [hgd, ipSum_oaddV2]; simp [hl1len, hlenKnots]
+  set gd := oaddV3 (l1.map (·.2.1)) with hgd
+  have hgdPair : segPairV (l1.map (·.2.1)) ((buildFull hs Ps bL bR).knots.map V3du) = ipSum ip3 gd ((buildFull hs Ps bL bR).knots.map V3du) := by
+    rw [hgd, ipSum_oaddV3]; simp [hl1len, hlenKnots]
   rw [hgdPair]
   have hN1 : 1 ≤ hs.length := by
     cases hs with
@@ -742,13 +743,13 @@ theorem quintic_adjoint (hs Ps : List (Dual K)) (bL bR : V2 (Dual K)) (gs : List
     | cons _ _ => simp
   -- split the knot lists into first / inner / last
   have hgdlen : gd.length = hs.length + 1 := by
-    have : ∀ (c : V2 K) (l : List (V2 K × V2 K)), (oaddV2Aux c l).length = l.length + 1 := by
+    have : ∀ (c : V3 K) (l : List (V3 K × V3 K)), (oaddV3Aux c l).length = l.length + 1 := by
       intro c l; induction l generalizing c with
-      | nil => simp [oaddV2Aux]
-      | cons p rest ih => obtain ⟨a, b'⟩ := p; simp [oaddV2Aux, ih]
-    rw [hgd, oaddV2, this]; simp [hl1len]
+      | nil => simp [oaddV3Aux]
+      | cons p rest ih => obtain ⟨a, b'⟩ := p; simp [oaddV3Aux, ih]
+    rw [hgd, oaddV3, this]; simp [hl1len]
   obtain ⟨g0, gmid, gN, hgdsplit, hgmid⟩ : ∃ g0 gmid gN, gd = g0 :: gmid ++ [gN] ∧ gmid.length = hs.length - 1 := by
-    have : ∀ (l : List (V2 K)), 2 ≤ l.length → ∃ a m z, l = a :: m ++ [z] ∧ m.length = l.length - 2 := by
+    have : ∀ (l : List (V3 K)), 2 ≤ l.length → ∃ a m z, l = a :: m ++ [z] ∧ m.length = l.length - 2 := by
       intro l hl
       match l, hl with
       | a :: rest, hl =>
@@ -757,15 +758,15 @@ theorem quintic_adjoint (hs Ps : List (Dual K)) (bL bR : V2 (Dual K)) (gs : List
         rw [List.cons_append, List.dropLast_append_getLast hr]
     obtain ⟨a, m, z, h1, h2⟩ := this gd (by omega)
     exact ⟨a, m, z, h1, by rw [h2, hgdlen]; omega⟩
-  have hknotsDu : (buildFull hs Ps bL bR).knots.map V2du = V2du bL :: inner.map V2du ++ [V2du bR] := by
+  have hknotsDu : (buildFull hs Ps bL bR).knots.map V3du = V3du bL :: inner.map V3du ++ [V3du bR] := by
     rw [hknotsD]; simp
-  rw [hknotsDu, hgdsplit, ipSum_split g0 gN gmid (V2du bL) (V2du bR) (inner.map V2du) (by simp [hgmid, hlenInner])]
+  rw [hknotsDu, hgdsplit, ipSum_split g0 gN gmid (V3du bL) (V3du bR) (inner.map V3du) (by simp [hgmid, hlenInner])]
   -- the differentiated system and the adjoint of the solve
-  set rho := rhoB (V2re 0) rowsD (inner.map V2re) with hrho
+  set rho := rhoB (V3re 0) rowsD (inner.map V3re) with hrho
   have hdu := bsolves_du 0 rowsD inner hsolD
   rw [zero_du, hrowsRe] at hdu
   have hrholen : rho.length = rowsR.length := by
-    have : ∀ (xp : V2 K) (rs : List (BRow (M2 (Dual K)) (V2 (Dual K)))) (xs : List (V2 K)), xs.length = rs.length →
+    have : ∀ (xp : V3 K) (rs : List (BRow (M3 (Dual K)) (V3 (Dual K)))) (xs : List (V3 K)), xs.length = rs.length →
         (rhoB xp rs xs).length = rs.length := by
       intro xp rs
       induction rs generalizing xp with
@@ -776,21 +777,21 @@ theorem quintic_adjoint (hs Ps : List (Dual K)) (bL bR : V2 (Dual K)) (gs : List
         | x :: xs, hx => simp [rhoB, ih x xs (by simpa using hx)]
     rw [hrho, this _ _ _ (by simp [hlenInner, hlenRows]), hlenRows, hlenRowsR]
   have hsame := sameMat_withB rowsR rho hrholen
-  have hpivR' : BPivOK2 M2.inv none (withB rowsR rho) :=
+  have hpivR' : BPivOK2 M3.inv none (withB rowsR rho) :=
     detOK_pivOK2 none _ (detOK_congr none none rowsR _ trivial hsame hdet)
-  have hadj := bsolveT_adjoint M2.inv ip2_pairing (withB rowsR rho) hpivR' (inner.map V2du) gmid hdu
+  have hadj := bsolveT_adjoint M3.inv ip3_pairing (withB rowsR rho) hpivR' (inner.map V3du) gmid hdu
     (by rw [hgmid, ← hlenRowsR]; exact (List.Forall₂.length_eq hsame))
   rw [withB_b rowsR rho hrholen] at hadj
   rw [← bsolveT_congr _ _ (bfwd_sameLU none none rowsR _ trivial hsame)] at hadj
   rw [hadj]
-  set lam := @bsolveT _ _ (ringBlk M2.inv M2.transpose) (@bfwd _ _ (ringBlk M2.inv M2.transpose) none rowsR) gmid with hlam
+  set lam := @bsolveT _ _ (ringBlk M3.inv M3.transpose) (@bfwd _ _ (ringBlk M3.inv M3.transpose) none rowsR) gmid with hlam
   have hlamlen : lam.length = hs.length - 1 := by
-    have hF : ∀ (s : Option (BFact (M2 K) (V2 K))) (l : List (BRow (M2 K) (V2 K))), (@bfwd _ _ (ringBlk M2.inv M2.transpose) s l).length = l.length := by
+    have hF : ∀ (s : Option (BFact (M3 K) (V3 K))) (l : List (BRow (M3 K) (V3 K))), (@bfwd _ _ (ringBlk M3.inv M3.transpose) s l).length = l.length := by
       intro s l; induction l generalizing s with
       | nil => cases s <;> simp [bfwd]
       | cons a l ihl => cases s <;> simp [bfwd, ihl]
-    have hBT : ∀ (fs : List (BFact (M2 K) (V2 K))) (y : List (V2 K)), y.length = fs.length →
-        (@bbackT _ _ (ringBlk M2.inv M2.transpose) fs y).length = fs.length := by
+    have hBT : ∀ (fs : List (BFact (M3 K) (V3 K))) (y : List (V3 K)), y.length = fs.length →
+        (@bbackT _ _ (ringBlk M3.inv M3.transpose) fs y).length = fs.length := by
       intro fs
       induction fs with
       | nil => intro y _; cases y <;> simp [bbackT]
@@ -803,10 +804,10 @@ theorem quintic_adjoint (hs Ps : List (Dual K)) (bL bR : V2 (Dual K)) (gs : List
             | [], _ => simp [bbackT]
           | cons f2 fs2 =>
             have := ih ys (by simpa using hy)
-            rw [bbackT_cons_cons M2.inv f f2 fs2 y0 ys (by simpa using hy)]
+            rw [bbackT_cons_cons M3.inv f f2 fs2 y0 ys (by simpa using hy)]
             simp only [List.length_cons] at this ⊢
             omega
-    rw [hlam, bsolveT, hBT _ _ (by rw [bfwdT_length M2.inv none _ gmid (by rw [hF, hgmid, hlenRowsR]), hF]), hF, hlenRowsR]
+    rw [hlam, bsolveT, hBT _ _ (by rw [bfwdT_length M3.inv none _ gmid (by rw [hF, hgmid, hlenRowsR]), hF]), hF, hlenRowsR]
   have hmid : gd.tail.dropLast = gmid := by rw [hgdsplit]; simp
   set l2 := loop2 segsR b.knots lam with hl2
   have hpoints : out.points = zipAdd (oadd (l1.map (·.1))) (oadd3 (l2.map (·.1))) := by
@@ -818,7 +819,7 @@ theorem quintic_adjoint (hs Ps : List (Dual K)) (bL bR : V2 (Dual K)) (gs : List
   have hsRlen : segsR.length = hs.length := by rw [← hsegs, List.length_map, hlenSegs]
   have hkRlen : b.knots.length = hs.length + 1 := by rw [← hknotsMap, List.length_map, hlenKnots]
   have hl2len : l2.length = hs.length - 1 := by
-    have : ∀ (segs : List (Seg K)) (ks : List (V2 K)) (lams : List (V2 K)), segs.length = lams.length + 1 → ks.length = lams.length + 2 →
+    have : ∀ (segs : List (Seg K)) (ks : List (V3 K)) (lams : List (V3 K)), segs.length = lams.length + 1 → ks.length = lams.length + 2 →
         (loop2 segs ks lams).length = lams.length := by
       intro segs ks lams
       induction lams generalizing segs ks with
@@ -870,10 +871,10 @@ theorem quintic_adjoint (hs Ps : List (Dual K)) (bL bR : V2 (Dual K)) (gs : List
       dot_oadd _ _ (by simp [hl2len]; omega)]
     ring
   rw [hdotP, hdotT]
-  have hgd0 : gd.headD V2.zero = g0 := by rw [hgdsplit]; rfl
-  have hgdN : gd.getLastD V2.zero = gN := by
+  have hgd0 : gd.headD V3.zero = g0 := by rw [hgdsplit]; rfl
+  have hgdN : gd.getLastD V3.zero = gN := by
     rw [hgdsplit]
-    have : ∀ (a z : V2 K) (m : List (V2 K)) (d : V2 K), (a :: m ++ [z]).getLastD d = z := by
+    have : ∀ (a z : V3 K) (m : List (V3 K)) (d : V3 K), (a :: m ++ [z]).getLastD d = z := by
       intro a z m d
       rw [List.getLastD_eq_getLast?, List.getLast?_append]; rfl
     exact this _ _ _ _
@@ -893,15 +894,15 @@ theorem quintic_adjoint (hs Ps : List (Dual K)) (bL bR : V2 (Dual K)) (gs : List
   · -- N ≥ 2
     have hsR2 : segsR = segRe s0 :: segRe s1 :: rest.map segRe := by rw [← hsegs, hcase]; rfl
     obtain ⟨hst, hfi⟩ := propagate_ends_multi b gs (segRe s0) (segRe s1) (rest.map segRe) hsR2
-    have hst' : out.start = V2.sub g0 (M2.actT (blockL (segRe s0).tp) (lam.headD V2.zero)) := by
+    have hst' : out.start = V3.sub g0 (M3.actT (blockL (segRe s0).tp) (lam.headD V3.zero)) := by
       show (propagate b gs).start = _
       rw [hst]
-      show V2.sub (gd.headD V2.zero) (M2.actT _ ((bsolveT b.facts gd.tail.dropLast).headD V2.zero)) = _
+      show V3.sub (gd.headD V3.zero) (M3.actT _ ((bsolveT b.facts gd.tail.dropLast).headD V3.zero)) = _
       rw [hmid, hgd0]; rfl
-    have hfi' : out.fin = V2.sub gN (M2.actT (endU (segRe s0) (segRe s1 :: rest.map segRe)) (lam.getLastD V2.zero)) := by
+    have hfi' : out.fin = V3.sub gN (M3.actT (endU (segRe s0) (segRe s1 :: rest.map segRe)) (lam.getLastD V3.zero)) := by
       show (propagate b gs).fin = _
       rw [hfi]
-      show V2.sub (gd.getLastD V2.zero) (M2.actT _ ((bsolveT b.facts gd.tail.dropLast).getLastD V2.zero)) = _
+      show V3.sub (gd.getLastD V3.zero) (M3.actT _ ((bsolveT b.facts gd.tail.dropLast).getLastD V3.zero)) = _
       rw [hmid, hgdN]; rfl
     have hrestlen : (s1 :: rest).length = hs.length - 1 := by
       rw [hcase] at hlenSegs; simp only [List.length_cons] at hlenSegs ⊢; omega
@@ -918,18 +919,18 @@ theorem quintic_adjoint (hs Ps : List (Dual K)) (bL bR : V2 (Dual K)) (gs : List
     have hec := endCorr_eq bR s0 (s1 :: rest) lam (by rw [hlamlen, hrestlen]) (by simp)
     rw [hec, endU_re, blockL_re] at hrs
     rw [hrs, hst', hfi']
-    have e1 : ∀ (g : V2 K) (m : M2 K) (l d : V2 K), ip2 (V2.sub g (M2.actT m l)) d = ip2 g d - ip2 l (m • d) := by
+    have e1 : ∀ (g : V3 K) (m : M3 K) (l d : V3 K), ip3 (V3.sub g (M3.actT m l)) d = ip3 g d - ip3 l (m • d) := by
       intro g m l d
-      have := ip2_pairing.adj m l d
-      show ip2 (g - M2.transpose m • l) d = _
-      rw [ip2_pairing.sub_left, this]
+      have := ip3_pairing.adj m l d
+      show ip3 (g - M3.transpose m • l) d = _
+      rw [ip3_pairing.sub_left, this]
     rw [e1, e1]
-    have hz : (V2.zero : V2 K) = 0 := by ext <;> simp [V2.zero, V2.zero_def, lit_eq]
-    have a1 : ip2 (lam.headD V2.zero) (blockL (segRe s0).tp • V2du bL)
-        = ip2 (lam.headD 0) (blockL (tpRe s0.tp) • V2du bL) := by rw [hz]; rfl
-    have a2 : ip2 (lam.getLastD V2.zero) (endU (segRe s0) (segRe s1 :: List.map segRe rest) • V2du bR)
-        = ip2 (lam.getLastD 0) (endU (segRe s0) (List.map segRe (s1 :: rest)) • V2du bR) := by rw [hz]; rfl
+    have hz : (V3.zero : V3 K) = 0 := by ext <;> simp [V3.zero, V3.zero_def, lit_eq]
+    have a1 : ip3 (lam.headD V3.zero) (blockL (segRe s0).tp • V3du bL)
+        = ip3 (lam.headD 0) (blockL (tpRe s0.tp) • V3du bL) := by rw [hz]; rfl
+    have a2 : ip3 (lam.getLastD V3.zero) (endU (segRe s0) (segRe s1 :: List.map segRe rest) • V3du bR)
+        = ip3 (lam.getLastD 0) (endU (segRe s0) (List.map segRe (s1 :: rest)) • V3du bR) := by rw [hz]; rfl
     rw [a1, a2]
     ring
 
-end QuinticAdj
+end SepticAdj
